@@ -91,6 +91,12 @@ func (x *imgCtx) imgCases(imgPath string) {
 	if imgPath == "" || x.tolerated {
 		return
 	}
+	if contains(x.o.feats, "meta_bg") {
+		// the SPEC reader refuses meta_bg (descriptor blocks are spread over the meta groups); the library reads the
+		// one-meta-group image through the plain layout, which coincides with it there: judged by the oracle alone
+		c.Stat("imgwalk-skipped-meta-bg")
+		return
+	}
 	type ent struct {
 		path string
 		de   iofs.DirEntry
